@@ -424,6 +424,7 @@ func extractC11() *lean {
 	_, acalls := c11Conds(c11Method(ambF, "ambassador", "jsonLDRevocationCallback"))
 	acl := c11Filter(acalls, "RegisterRevocation")
 	l.def("ambassadorRevocationCalls", "List String", leanStrList(acl), acl)
+	extractC11Wire(l, issF, verF)
 	return l
 }
 
